@@ -271,7 +271,8 @@ def miri_jobs(prop, pkg, ctx, shards, extra=None, release=True, miriflags=""):
 ASAN_ENV = dict(ASAN_OPTIONS="halt_on_error=1:abort_on_error=1:detect_leaks=0:symbolize=1")
 
 
-def tables_jobs(prop, ctx, quick=("chk", "ship"), shards_per=8, thorough_extra=("asan", "miri"), miri_shards=16, vg=False):
+def tables_jobs(prop, ctx, quick=("chk", "ship"), shards_per=8, thorough_extra=("asan", "miri"), miri_shards=16, vg=False,
+                quick_miri=0):
     jobs = []
     flavours = list(quick)
     # every flavour enumerates the whole domain on its own (shards are per flavour)
@@ -291,6 +292,9 @@ def tables_jobs(prop, ctx, quick=("chk", "ship"), shards_per=8, thorough_extra=(
             for i in range(4):
                 jobs.append(bin_job(prop, "mon-tables", "vg", d, ctx, i, 4, extra=["--small"],
                                     wrapper=["valgrind", "--quiet", "--error-exitcode=97", "--tool=memcheck"]))
+    elif quick_miri:
+        # a few Miri shards (small workload) already in the quick tier, where they cost well under a minute
+        jobs += miri_jobs(prop, "mon-tables", ctx, quick_miri)
     return jobs
 
 
@@ -337,7 +341,7 @@ PROPS["C09"] = dict(
 )
 
 PROPS["C16"] = dict(
-    jobs=lambda ctx: tables_jobs("C16", ctx, shards_per=8, thorough_extra=("miri",), miri_shards=8),
+    jobs=lambda ctx: tables_jobs("C16", ctx, shards_per=8, thorough_extra=("miri",), miri_shards=8, quick_miri=2),
     replay=tables_replay("C16"),
     exhaustive=True,
     exhaustive_note="all 20480 moves + absent move, all 2 x 65536 mate distances; raw scores at the extremes and 10^5 seeded",
